@@ -124,7 +124,7 @@ def dispatch(prog, fn_path, limit=20000):
         if paths is None:
             return None, None
         for path in paths:
-            ats = accept.simplify(path_atoms(sy, path))
+            ats = accept.simplify(path_atoms(sy, path), sy.sym_box)
             if ats is None:
                 continue
             rs = RunSet()
